@@ -1,0 +1,30 @@
+//go:build verif
+
+package parser
+
+import "IG-Parser/core/tree"
+
+/*
+Verification hooks (build tag 'verif' only): exported aliases of unexported pure helpers, so that a harness can
+exercise them in isolation. No behaviour is added.
+*/
+
+func VerifValidateInput(text string, leftPar string, rightPar string) tree.ParsingError {
+	return validateInput(text, leftPar, rightPar)
+}
+
+func VerifExtractComponentContent(component string, propertyComponent bool, input string, leftPar string, rightPar string) ([]string, tree.ParsingError) {
+	return extractComponentContent(component, propertyComponent, input, leftPar, rightPar)
+}
+
+func VerifExtractSuffixAndAnnotations(component string, propertyComponent bool, input string, leftPar string, rightPar string) (string, string, string, tree.ParsingError) {
+	return extractSuffixAndAnnotations(component, propertyComponent, input, leftPar, rightPar)
+}
+
+func VerifExtractComponentType(input string) (string, bool, tree.ParsingError) {
+	return extractComponentType(input)
+}
+
+func VerifSeparateComponents(statement string) ([][]string, tree.ParsingError) {
+	return separateComponentsNestedStatementsCombinationsAndComponentPairs(statement)
+}
